@@ -26,6 +26,8 @@ import (
 	"strings"
 )
 
+var funcNames []string
+
 func die(format string, a ...interface{}) {
 	fmt.Fprintf(os.Stderr, "xpinstr: "+format+"\n", a...)
 	os.Exit(2)
@@ -73,6 +75,11 @@ func main() {
 	copyFile(filepath.Join(*src, "go.mod"), filepath.Join(*dst, "go.mod"))
 
 	nfunc, nsync, ngo := 0, 0, 0
+	defer func() {
+		// the names of all instrumented functions, for the reach report
+		sort.Strings(funcNames)
+		os.WriteFile(filepath.Join(*dst, "verif_funcs.txt"), []byte(strings.Join(funcNames, "\n")+"\n"), 0o644)
+	}()
 	for _, f := range files {
 		rel, _ := filepath.Rel(*src, f)
 		out := filepath.Join(*dst, rel)
@@ -191,6 +198,7 @@ func instrument(in, out, shimPath string, enter bool) (nfunc, nsync, ngo int) {
 				name = recvName(fd.Recv.List[0].Type) + "." + name
 			}
 			edits = append(edits, edit{off(fd.Body.Lbrace) + 1, 0, " verifsync__.Enter(" + strconv.Quote(name) + ");"})
+			funcNames = append(funcNames, name)
 			nfunc++
 		}
 		if nfunc > 0 {
